@@ -215,7 +215,8 @@ def run_case(case):
         sfx, orig_close = ('_int' if is_int else '_f32'), case.close
 
         def close(obs, exp, what, **kw):
-            return orig_close(obs, exp, what if what.endswith(('_int', '_within_one')) else what + sfx, **kw)
+            return orig_close(obs, exp, what if (what.endswith(('_int', '_within_one')) or what.startswith('int_dtype_range'))
+                              else what + sfx, **kw)
         case.close = close
     data, mask, cov = spec['data'], spec['mask'], spec['cov']
     ny, nx = data.shape
@@ -579,9 +580,20 @@ def run_case(case):
         for k in ('mesh', 'rmesh', 'npix', 'med', 'rmed', 'bkg', 'rms'):
             # integer data carried with a unit (NDData(unit=...)): the meshes become float Quantities and the maps are
             # interpolated in floating point instead of being rounded to the integer dtype: within one count
-            iat = 1.0 if (is_int and exp_unit is not None and k in ('bkg', 'rms')) else 0.0
+            if is_int and exp_unit is not None and k in ('bkg', 'rms'):
+                # where the float map (unit-ful form) leaves the range of the integer dtype, the plain integer form
+                # saturates / wraps (known integer-cast finding, structural flag); inside the range: within one count
+                info_ = np.iinfo(data.dtype)
+                fv = _fl(out[k])
+                ins_ = (fv >= info_.min - 0.5) & (fv <= info_.max + 0.5)
+                case.close(fv[ins_], _fl(o_plain[k])[ins_], name + k, atol=1.0, mech=mech)
+                if (~ins_).any():
+                    case.close(fv[~ins_], _fl(o_plain[k])[~ins_], 'int_dtype_range_map', atol=1.0,
+                               mech=dict(mech, stat_outside_int_dtype_range=True))
+                    case.note('call_form_int_map_pixels_outside_dtype_range', int((~ins_).sum()))
+                continue
             case.close(_fl(out[k]), _fl(o_plain[k]), name + k, rtol=rrt,
-                       atol=(rrt * scale if k != 'npix' else 0.0) + iat, mech=mech)
+                       atol=(rrt * scale if k != 'npix' else 0.0), mech=mech)
         case.note('mask_representation_cases' if forms_plain else 'call_form_cases')
         if not masks_plain and (data.dtype.kind != 'f' or bool(np.isfinite(data).all())):
             case.note('mask_representation_cases_data_all_finite')
@@ -751,6 +763,13 @@ def _float16_case(case, spec, mech):
     if not np.isfinite(d16[np.isfinite(spec['data'])]).all():
         case.note('axis2_float16_out_of_range')
         return
+    good16 = d16[np.isfinite(d16)].astype(float)
+    nbox = float(np.prod(scenes._pair_form(spec['box'], 'tuple')))
+    if good16.size and float(np.max(np.abs(good16))) * nbox > 6.0e4:
+        # the box sums exceed the largest half-precision number (65504): the library's statistics run in the dtype of
+        # the image and overflow to inf; documentation is silent on half precision - counted, not judged
+        case.note('axis2_float16_box_sum_overflows_half_precision')
+        return
     case.nontrivial = True
     sp16 = dict(spec, data=d16, forms=scenes.PLAIN_FORMS)
     try:
@@ -773,6 +792,10 @@ def _float16_case(case, spec, mech):
         raise
     good = d16[np.isfinite(d16)].astype(float)
     sc = float(np.max(np.abs(good))) if good.size else 1.0
+    if not all(np.isfinite(_fl(o16[k])).all() for k in ('mesh', 'rmesh', 'bkg', 'rms')):
+        # sums or sums of squares overflowed half precision inside the statistics (counted, not judged: see above)
+        case.note('axis2_float16_statistics_overflow_half_precision')
+        return
     if np.array_equal(o16['npix'], o64['npix']):
         for k in ('mesh', 'rmesh', 'bkg', 'rms'):
             case.close(_fl(o16[k]), _fl(o64[k]), 'float16_vs_float64_' + k, rtol=4e-3, atol=4e-3 * sc,
@@ -833,6 +856,45 @@ def _rel_garbage(case, spec, out, mech, tmask_in, is_int):
     for k in ('mesh', 'rmesh', 'npix', 'bkg', 'rms', 'med', 'rmed'):
         case.close(o2[k], out[k], 'mask_blind_' + k, mech=mech)
     case.note('mask_blind_cases')
+
+
+def _int_inside(specs, info):
+    """Integer images: run the same requests on the float64 copy of the data (the library's float path keeps the
+    statistics and the spline un-cast) and report, per observation point, where every float-path value lies inside
+    the range of the integer dtype. Outside that range the integer output saturates or wraps (known finding)."""
+    inside = None
+    for sp in specs:
+        try:
+            of = scenes.outputs(scenes.construct(dict(sp, data=sp['data'].astype(np.float64))))
+        except ValueError as exc:
+            if _is_all_excluded_error(exc):
+                return None
+            raise
+        cur = {k: (_fl(of[k]) >= info.min - 0.5) & (_fl(of[k]) <= info.max + 0.5) for k in ('mesh', 'rmesh', 'bkg', 'rms')}
+        inside = cur if inside is None else {k: inside[k] & cur[k] for k in cur}
+    # a mesh value outside the range spoils the spline around it: judge the maps only if all meshes are inside
+    if not (inside['mesh'].all() and inside['rmesh'].all()):
+        inside['bkg'] = np.zeros_like(inside['bkg'])
+        inside['rms'] = np.zeros_like(inside['rms'])
+    return inside
+
+
+def _close_split(case, obs, exp, what, atol, mech, inside, sel=None):
+    """Compare where the float-path value is inside the integer dtype's range; elements outside are compared under
+    the structural flag of the known integer-cast finding."""
+    obs, exp = _fl(obs), _fl(exp)
+    if inside is None:
+        if sel is not None:
+            obs, exp = obs[sel], exp[sel]
+        return case.close(obs, exp, what, atol=atol, mech=mech)
+    ins = inside if sel is None else inside[sel]
+    if sel is not None:
+        obs, exp = obs[sel], exp[sel]
+    case.close(obs[ins], exp[ins], what, atol=atol, mech=mech)
+    if (~ins).any():
+        case.close(obs[~ins], exp[~ins], 'int_dtype_range_relation', atol=atol,
+                   mech=dict(mech, stat_outside_int_dtype_range=True))
+        case.note('int_relation_elements_outside_dtype_range', int((~ins).sum()))
 
 
 def _rel_nan_is_mask(case, spec, out, mech, is_int):
@@ -948,16 +1010,22 @@ def _rel_shift(case, spec, meta, out, off, scale, rel, mech, is_int, int_tol):
     atol = rel * (scale + abs(c)) + int_tol
     sfx = '_int' if is_int else ''
     m = dict(mech, rel='shift')
-    case.close(_fl(o2['mesh']), _fl(out['mesh']) + c, 'shift_mesh' + sfx, atol=atol, mech=m)
-    case.close(_fl(o2['rmesh']), _fl(out['rmesh']), 'shift_rms_mesh' + sfx, atol=atol, mech=m)
+    ins = None
+    if is_int:
+        ins = _int_inside([spec, dict(spec, data=d2, thr=None if thr is None else thr + c)], np.iinfo(data.dtype))
+        if ins is None:
+            return
+    gi = (lambda k: None) if ins is None else (lambda k: ins[k])
+    _close_split(case, o2['mesh'], _fl(out['mesh']) + c, 'shift_mesh' + sfx, atol, m, gi('mesh'))
+    _close_split(case, o2['rmesh'], _fl(out['rmesh']), 'shift_rms_mesh' + sfx, atol, m, gi('rmesh'))
     case.close(o2['npix'], out['npix'], 'shift_npixels', mech=m)
     if not is_int:
         nrm = scale + abs(c)
         sf = '_f32' if meta['dtype'] == 'float32' else ''
         case.dev('shift_mesh_over_magnitude' + sf, np.max(np.abs(_fl(o2['mesh']) - (_fl(out['mesh']) + c))) / nrm)
         case.dev('shift_rms_mesh_over_magnitude' + sf, np.max(np.abs(_fl(o2['rmesh']) - _fl(out['rmesh']))) / nrm)
-    case.close(_fl(o2['bkg'])[off], _fl(out['bkg'])[off] + c, 'shift_background' + sfx, atol=atol, mech=m)
-    case.close(_fl(o2['rms'])[off], _fl(out['rms'])[off], 'shift_background_rms' + sfx, atol=atol, mech=m)
+    _close_split(case, o2['bkg'], _fl(out['bkg']) + c, 'shift_background' + sfx, atol, m, gi('bkg'), sel=off)
+    _close_split(case, o2['rms'], _fl(out['rms']), 'shift_background_rms' + sfx, atol, m, gi('rms'), sel=off)
     case.close(_fl(o2['bkg'])[~off], _fl(out['bkg'])[~off], 'shift_fill_unchanged', mech=m)
     case.note('shift_cases')
 
@@ -996,14 +1064,20 @@ def _rel_scale(case, spec, meta, out, off, scale, rel, mech, is_int, int_tol, po
     atol = 0.0 if pow2 else rel * scale * k + int_tol * k
     sfx = '_int' if is_int else ''
     m = dict(mech, rel='scale_pow2' if pow2 else 'scale')
-    case.close(_fl(o2['mesh']), _fl(out['mesh']) * k, 'scale_mesh' + sfx, atol=atol, mech=m)
-    case.close(_fl(o2['rmesh']), _fl(out['rmesh']) * k, 'scale_rms_mesh' + sfx, atol=atol, mech=m)
+    ins = None
+    if is_int:
+        ins = _int_inside([spec, dict(spec, data=d2, thr=None if thr is None else thr * k)], np.iinfo(data.dtype))
+        if ins is None:
+            return
+    gi = (lambda q: None) if ins is None else (lambda q: ins[q])
+    _close_split(case, o2['mesh'], _fl(out['mesh']) * k, 'scale_mesh' + sfx, atol, m, gi('mesh'))
+    _close_split(case, o2['rmesh'], _fl(out['rmesh']) * k, 'scale_rms_mesh' + sfx, atol, m, gi('rmesh'))
     case.close(o2['npix'], out['npix'], 'scale_npixels', mech=m)
     if not is_int and not pow2:
         nrm = scale * k
         case.dev('scale_mesh_over_magnitude', np.max(np.abs(_fl(o2['mesh']) - _fl(out['mesh']) * k)) / nrm)
         case.dev('scale_rms_mesh_over_magnitude', np.max(np.abs(_fl(o2['rmesh']) - _fl(out['rmesh']) * k)) / nrm)
-    case.close(_fl(o2['bkg'])[off], _fl(out['bkg'])[off] * k, 'scale_background' + sfx, atol=atol, mech=m)
-    case.close(_fl(o2['rms'])[off], _fl(out['rms'])[off] * k, 'scale_background_rms' + sfx, atol=atol, mech=m)
+    _close_split(case, o2['bkg'], _fl(out['bkg']) * k, 'scale_background' + sfx, atol, m, gi('bkg'), sel=off)
+    _close_split(case, o2['rms'], _fl(out['rms']) * k, 'scale_background_rms' + sfx, atol, m, gi('rms'), sel=off)
     case.close(_fl(o2['bkg'])[~off], _fl(out['bkg'])[~off], 'scale_fill_unchanged', mech=m)
     case.note('scale_pow2_cases' if pow2 else 'scale_general_cases')
